@@ -1,6 +1,8 @@
 import VlsModel.Model.Hmac
 import VlsModel.Gen.HmacFn
 import VlsModel.Gen.FnPersistMod
+import VlsModel.Gen.FnPersistMut
+import VlsModel.Gen.FnPersistDflt
 import VlsModel.Gen.FnHmacRs
 import VlsModel.Gen.FnLssUtil
 import VlsModel.Gen.FnLssFront
@@ -370,6 +372,21 @@ theorem C17_fn_mutations_inner (m : List RsRec) : Mutations.inner m = m := rfl
 theorem C17_fn_mutations_into_inner (m : List RsRec) : Mutations.into_inner m = m := rfl
 theorem C17_fn_mutations_is_empty (m : List RsRec) : Mutations.is_empty m = m.isEmpty := rfl
 theorem C17_fn_mutations_len (m : List RsRec) : Mutations.len m = m.length := rfl
+
+/-! Round 10 (b7): the three remaining accessors of `Mutations` (`Gen/FnPersistMut.lean`; the `impl Iterator<Item = …>` return
+    types are normalised to the list of the yielded items, `&Self::Output` is written out).  `iter()` is what
+    `compute_shared_hmac` folds over and `into_iter()` what `Client::put` converts: both yield exactly the records of
+    the list, in the order of the list (no sorting, no deduplication); `m[i]` is the i-th record or a panic. -/
+theorem C17_fn_mutations_iter (m : List RsRec) : Gen.FnPersistMut.Mutations.iter m = m := rfl
+theorem C17_fn_mutations_into_iter (m : List RsRec) : Gen.FnPersistMut.Mutations.into_iter m = m := rfl
+theorem C17_fn_mutations_index (m : List RsRec) (i : Nat) :
+    Gen.FnPersistMut.Mutations.index m i = match m[i]? with | some r => .ok r | none => .error .panic := by
+  unfold Gen.FnPersistMut.Mutations.index Rs.index
+  cases m[i]? <;> rfl
+example : Gen.FnPersistMut.Mutations.index [("b", (1, [2])), ("a", (0, []))] 1 = .ok ("a", (0, [])) := by
+  rw [C17_fn_mutations_index]; rfl
+example : Gen.FnPersistMut.Mutations.iter [("b", (1, [2])), ("a", (0, [])), ("b", (1, [2]))]
+    = [("b", (1, [2])), ("a", (0, [])), ("b", (1, [2]))] := C17_fn_mutations_iter _
 
 /-- what is taken out is what was put in, for every way of building the value: the list that reaches
     `compute_shared_hmac` (through `iter()` = the same component) is the list received / logged -/
@@ -774,5 +791,23 @@ open VlsModel.Gen.FnPersistDummy in
 theorem C17_fn_memseed_list (s : MemorySeedPersister) : s.list = [] := rfl
 open VlsModel.Gen.FnPersistDummy in
 theorem C17_fn_simple_entropy_new : SimpleEntropy.new = ({} : SimpleEntropy) := rfl
+
+/-! ## Round 10 (b7): the remaining defaults of `Persist` and the two refusing getters of `DummyPersister` (`Gen/FnPersistDflt.lean`)
+
+A persister that does not override them can neither take a batch of mutations outside a transaction nor start a
+replication: both defaults **panic** (`unimplemented!`) for every receiver and argument — no mutation list is ever
+accepted or produced silently by a non-KVV persister.  `DummyPersister::get_tracker/get_channel` refuse with
+`Error::Internal` whatever is asked (the dummy persister never returns state it did not store). -/
+theorem C17_fn_persist_default_put_batch_unlogged {S : Type} (s : S) (m : List RsRec) :
+    Gen.FnPersistDflt.Persist.put_batch_unlogged s m = .error .panic := rfl
+theorem C17_fn_persist_default_begin_replication {S : Type} (s : S) :
+    Gen.FnPersistDflt.Persist.begin_replication s = .error .panic := rfl
+theorem C17_fn_dummy_get_tracker {S P V T L : Type} (s : S) (n : P) (v : V) :
+    Gen.FnPersistDflt.DummyPersister.get_tracker (ChainTracker := T) (ChainTrackerListenerEntry := L) s n v
+      = .error (.err "Error::Internal") := rfl
+theorem C17_fn_dummy_get_channel {S P I E : Type} (s : S) (n : P) (i : I) :
+    Gen.FnPersistDflt.DummyPersister.get_channel (ChannelEntry := E) s n i = .error (.err "Error::Internal") := rfl
+example : Gen.FnPersistDflt.Persist.put_batch_unlogged () [("a", (0, [1]))] = .error .panic :=
+  C17_fn_persist_default_put_batch_unlogged () _
 
 end VlsModel.Props.C17Fn
